@@ -15,3 +15,9 @@ open SamVerif.Differ
 #print axioms text_lift
 #print axioms import_edits_text
 #print axioms auto_import_text
+#print axioms completion_edits_text
+#print axioms diff_self
+#print axioms flatten_splitLines
+#print axioms off_line
+#print axioms toplevel_err_text
+#print axioms toplevel_edits_eq
